@@ -15,6 +15,7 @@ use pushr::push::item::Item;
 use std::sync::atomic::{AtomicU64, Ordering};
 
 const INT_PROBES: [i32; 9] = [-i32::MAX, -1_000_000, -1, 0, 1, 1000, 1_000_000, 1_000_000_000, i32::MAX];
+const INDEX_PROBES: [(usize, usize); 7] = [(0, 100_000), (0, 3_000_000), (0, 100_000_000), (0, i32::MAX as usize), (0, usize::MAX / 2), (3_000_000, 6_000_000), (i32::MAX as usize - 1, i32::MAX as usize)];
 const FLOAT_PROBES: [f32; 6] = [1e30, -1e30, f32::INFINITY, f32::NEG_INFINITY, f32::NAN, 0.5];
 
 fn iclass(v: i32) -> &'static str {
@@ -112,19 +113,27 @@ fn steps(ctx: &mut Ctx) {
         } else {
             ctx.rec.set_add("instructions", name);
         }
-        // probes: (is_float, position, value index)
-        let mut probes: Vec<(bool, usize, usize)> = vec![];
+        // probes: (kind 0 = INTEGER, 1 = FLOAT, 2 = INDEX (current, destination) pair, position, value index)
+        let mut probes: Vec<(u8, usize, usize)> = vec![];
         for p in 0..ni {
             for v in 0..INT_PROBES.len() {
-                probes.push((false, p, v));
+                probes.push((0, p, v));
             }
         }
         for p in 0..nf {
             for v in 0..FLOAT_PROBES.len() {
-                probes.push((true, p, v));
+                probes.push((1, p, v));
             }
         }
-        for (isf, pos, vi) in probes {
+        // loop bounds live on the INDEX stack: an instruction that reads it is probed with mid-range and
+        // extreme (current, destination) pairs too
+        if depth_of(St::Index) > 0 {
+            for v in 0..INDEX_PROBES.len() {
+                probes.push((2, 0, v));
+            }
+        }
+        for (kind, pos, vi) in probes {
+            let isf = kind == 1;
             for pattern in 0..3 {
                 case += 1;
                 if !ctx.mine(case) {
@@ -149,7 +158,10 @@ fn steps(ctx: &mut Ctx) {
                     s.n.insert(0, String::new());
                     s.g.insert(0, SGraph::default());
                 }
-                let (cls, shown) = if isf {
+                let (cls, shown) = if kind == 2 {
+                    s.x[0] = INDEX_PROBES[vi];
+                    (format!("x0:{}", if INDEX_PROBES[vi].1 > i32::MAX as usize { "beyond-i32" } else { "positive" }), format!("{:?}", INDEX_PROBES[vi]))
+                } else if isf {
                     s.f[pos] = fb(FLOAT_PROBES[vi]);
                     (format!("f{}:{}", pos, fclass(FLOAT_PROBES[vi])), format!("{}", FLOAT_PROBES[vi]))
                 } else {
